@@ -40,6 +40,8 @@ OK_PYO = ("OpenSSL.SSL.TLS1_2_VERSION", "OpenSSL.SSL.TLS1_3_VERSION")
 def build(E):
     spec = Spec("C20")
     M = E.models
+    from pyvc import codecs_model
+    codecs_model.install(E)
 
     # ---- ssl module model -------------------------------------------------------------------
     def new_std(ctx, args, kw):
@@ -302,7 +304,7 @@ def build(E):
 
     # ---- TLS wrapper: inner protocol only after the handshake ---------------------------------------
     tls_proto.add_targets(E, spec, "C20")
-    spec.targets = [t for t in spec.targets if not ("tls_protocol:" in t[0] and ("TLSTransportWrapper" in t[0] or "_handle_handshake_timeout" in t[0] or "_flush_outgoing" in t[0]))]
+    spec.targets = [t for t in spec.targets if not ("tls_protocol:" in t[0] and ("TLSTransportWrapper" in t[0] or "_flush_outgoing" in t[0]))]
     spec.trusted += ["E4/E5: OpenSSL honours a context's minimum protocol version", "a context supplied by the caller of GeminiClient is outside the property's configurations",
                      "start_server decided on a mechanical slice (assignments/tests of use_pyopenssl, ssl_context, pyopenssl_ctx and create_server calls; all other statements dropped)"]
     return spec
